@@ -457,6 +457,16 @@ class Sim:
                     hw.store_feature(k, self.data[k])
         self.ds = self.build()
         self.child = dclab.new_dataset(self.ds)
+        self._child_mask = np.array(self.ds.filter.all).copy()
+
+    def sync_child(self):
+        self.child.rejuvenate()
+        self._child_mask = np.array(self.ds.filter.all).copy()
+
+    def child_in_sync(self):
+        return (len(self._child_mask) == len(self.mask)
+                and np.array_equal(self._child_mask, self.mask)
+                and np.array_equal(np.asarray(self.ds.filter.all), self.mask))
 
     # -- construction of datasets from the model state
     def build(self):
@@ -749,7 +759,11 @@ class Sim:
             elif k in ("temp", "ctemp"):
                 self.op_temp(op[1], op[2], child=(k == "ctemp"))
                 if op[3]:
-                    self.op_read(op[3], child=(k == "ctemp"))
+                    # set_temporary_feature() on a hierarchy child is documented to
+                    # update the hierarchy itself: read through the child *without*
+                    # an explicit refresh by the harness
+                    self.op_read(op[3], child=(k == "ctemp"),
+                                 norefresh=(k == "ctemp"))
             elif k == "plug":
                 self.set_plugins(op[1])
                 if op[2]:
@@ -792,7 +806,11 @@ class Sim:
     def op_temp(self, name, seed, child):
         full = temp_data(name, seed, self.n)
         if child:
-            self.child.rejuvenate()
+            # refresh only when the child is out of sync with the parent's filter
+            # (a refresh would wipe the child's cached feature objects, which are
+            # exactly what a replaced temporary feature has to invalidate)
+            if not self.child_in_sync():
+                self.sync_child()
             sub = full[self.mask]
             feat_temp.set_temporary_feature(self.child, name, sub.copy())
             full = np.full(self.n, np.nan)
@@ -812,7 +830,7 @@ class Sim:
         sc = self.emod_scenario()
         return "emodulus/" + ("invalid-config" if sc.startswith("invalid") else sc)
 
-    def op_read(self, f, child):
+    def op_read(self, f, child, norefresh=False):
         """read on the long-lived dataset (and, for `child`, afterwards through the
         refreshed hierarchy child) and on fresh counterparts"""
         rec = self.rec
@@ -820,7 +838,10 @@ class Sim:
         hist, removed = self.hist(f)
         tag = self.sigtag(f)
         if child:
-            self.child.rejuvenate()
+            if norefresh:
+                rec.cls("child-read-without-explicit-refresh")
+            else:
+                self.sync_child()
             rec.cls("child-read")
         fr = self.fresh(False)
         try:
@@ -956,7 +977,7 @@ class Sim:
 
     def op_has(self, f, child):
         if child:
-            self.child.rejuvenate()
+            self.sync_child()
         long_ds = self.child if child else self.ds
         fr = self.fresh(child)
         try:
